@@ -275,6 +275,8 @@ class WorldScenario:
             if ours:
                 base = r.pick(ours).id
                 fid = r.pick([base + "0", base[:-1] or "9", "1" + base, str(int(base) + 100000)])
+                if cl.flavour == "slurm" and r.chance(0.25):
+                    fid = base + r.pick(["_1", "_[2-5]", "+0"])  # somebody else's array task / heterogeneous job component
                 if fid not in cl.jobs:
                     add("foreign", {"op": "foreign", "id": fid,
                                     "code": r.pick(PHASE_CODES[cl.flavour]["running"] + PHASE_CODES[cl.flavour]["pending"])})
@@ -613,7 +615,7 @@ class WorldScenario:
                 while r.chance(p):
                     cl = w.cluster
                     cands = []
-                    for j in sorted(cl.jobs.values(), key=lambda j: int(j.id)):
+                    for j in sorted((j for j in cl.jobs.values() if not j.foreign), key=lambda j: int(j.id)):
                         if j.foreign:
                             continue
                         if j.phase == "pending" and cl.dep_state(j) == "ok":
